@@ -38,9 +38,17 @@ def use_repo():
     os.environ.setdefault("PYTHONHASHSEED", "0")
 
 
-def sh(cmd, timeout=1800, cwd=None, env=None):
+def _cap_memory(gb):
+    def f():
+        import resource
+        resource.setrlimit(resource.RLIMIT_AS, (gb << 30, gb << 30))
+    return f
+
+
+def sh(cmd, timeout=1800, cwd=None, env=None, mem_gb=None):
+    """mem_gb: address-space cap for the command and its children (a runaway coqc once took 56 GB before its time limit)"""
     p = subprocess.run(cmd, cwd=cwd, env=env, stdout=subprocess.PIPE, stderr=subprocess.STDOUT,
-                       timeout=timeout, text=True, errors="replace")
+                       timeout=timeout, text=True, errors="replace", preexec_fn=_cap_memory(mem_gb) if mem_gb else None)
     return p.returncode, p.stdout
 
 
@@ -122,7 +130,7 @@ def make(targets, timeout=3000):
     if not targets:
         return 0, ""
     cmd = ["timeout", str(timeout), "make", "-f", "Makefile.coq", "-k", "-j%d" % NCPU] + list(targets)
-    return sh(cmd, timeout=timeout + 60, cwd=COQ)
+    return sh(cmd, timeout=timeout + 60, cwd=COQ, mem_gb=16)
 
 
 GATE_RE = re.compile(r"\b(Admitted|admit|Axiom|Axioms|Parameter|Parameters|Conjecture|Conjectures|Admit Obligations|bypass_check|native_compute)\b"
